@@ -190,6 +190,11 @@ def enumerate_cases(tier):
             yield {"kind": "name", "expect": "reject", "name": name}
     for name in ("A", "_", "_a1", "Ab_9", "Z" * 40, "a1b2"):
         yield {"kind": "name", "expect": "accept", "name": name}
+    for code in ("none", "int", "zero", "float", "bytes", "tuple", "bool", "path", "list"):
+        yield {"kind": "name", "expect": "reject", "name": "", "name_obj": code}
+    for k in (2, 3):
+        for naming in ("dupfn", "intfn", "lastdup"):
+            yield {"kind": "map", "k": k, "form": "str", "naming": naming}
 
 
 def strategy(tier):
@@ -375,6 +380,25 @@ def run_name(case):
 
     w = Workflow(working_dir="/some/dir")
     name = case["name"]
+    if case.get("name_obj"):
+        # a name that is not a string at all (what a careless naming function returns)
+        obj = {"none": None, "int": 3, "zero": 0, "float": 1.5, "bytes": b"Ab", "tuple": ("A", "b"), "bool": True,
+               "path": pathlib.PurePosixPath("Ab"), "list": ["Ab"]}[case["name_obj"]]
+        viols = []
+        for how in ("target", "template"):
+            w = Workflow(working_dir="/some/dir")
+            try:
+                if how == "target":
+                    w.target(obj, inputs=[], outputs=[])
+                else:
+                    from gwf import AnonymousTarget
+
+                    w.target_from_template(obj, AnonymousTarget(inputs=[], outputs=[], options={}))
+                viols.append(Violation({"kind": "invalid-name-accepted", "class": "not-a-string", "how": how},
+                                       f"target name {obj!r} ({type(obj).__name__}) was accepted by {how}"))
+            except Exception:  # noqa: BLE001
+                pass
+        return CaseResult(viols, True, ["name-reject", "name-not-a-string"])
     try:
         w.target(name, inputs=[], outputs=[])
         accepted = True
@@ -459,11 +483,26 @@ def run_map(case):
             tl = w.map(step, items)
         elif case["naming"] == "string":
             tl = w.map(step, items, name="nm")
+        elif case["naming"] == "dupfn":
+            tl = w.map(step, items, name=lambda idx, t: "same")       # every item gets the same name
+        elif case["naming"] == "lastdup":
+            tl = w.map(step, items, name=lambda idx, t: f"f{min(idx, k - 2)}")  # the last two items collide
+        elif case["naming"] == "intfn":
+            tl = w.map(step, items, name=lambda idx, t: idx)          # not a string
         else:
             tl = w.map(step, items, name=lambda idx, t: f"f{idx}")
         return w, tl
 
     viols = []
+    if case["naming"] in ("dupfn", "lastdup", "intfn"):
+        # names that are not distinct identifier-like strings are rejected when the targets are defined
+        try:
+            w1, tl1 = build()
+        except Exception:  # noqa: BLE001
+            return CaseResult([], True, ["map", "naming-" + case["naming"]])
+        return CaseResult([Violation({"kind": "map-accepted-bad-names", "naming": case["naming"]},
+                                     f"map over {k} items with a naming function giving {[t.name for t in tl1]!r} was accepted; "
+                                     f"the workflow holds {list(w1.targets)!r}")], True, ["map", "naming-" + case["naming"]])
     try:
         w1, tl1 = build()
         w2, tl2 = build()
